@@ -1,21 +1,36 @@
 /* C20 — command-line tools compute what the library API defines: the hwloc-calc location evaluator.
  * Real code: utils/hwloc/hwloc-calc.h (header-inline evaluator shared by hwloc-calc, hwloc-bind, hwloc-info),
- * on seed S2 built by the real core. Diagnostics (asprintf of sets, fprintf) are not the subject: stubbed.
+ * on the hand-linked topology of vp_mini.h (Machine, 2 Packages, PUs 0,1,2,5, 2 NUMA nodes). Diagnostics (asprintf of sets, fprintf) are not the subject: stubbed.
  * Process-level behaviour (exit statuses, option parsing, output formats) is outside.
  */
-#define SEED 2
-#include "vp_seed.h"
+#include "private/autogen/config.h"
+#include "hwloc.h"
+#include "private/private.h"
+#include "private/misc.h"
+#include <string.h>
+#include <assert.h>
+#include "vp_mini.h"
 #include <ctype.h>
+#ifdef VP_CBMC
+void hwloc_internal_distances_refresh(hwloc_topology_t t) { (void) t; }
+void hwloc_internal_memattrs_refresh(hwloc_topology_t t) { (void) t; }
+int hwloc_hide_errors(void) { return 2; }
+char *getenv(const char *n) { (void) n; return 0; }
+#endif
+#define vp_bm vp_mbm
+#define vp_w vp_mw
+#ifdef VP_CBMC
+/* glibc's isdigit is a table lookup through __ctype_b_loc(): a plain function instead (C locale) */
+#undef isdigit
+#undef isspace
+int isdigit(int c) { return c >= '0' && c <= '9'; }
+#endif
 /* diagnostics only: keep the evaluator, drop the formatting */
 static int vp_noprint(char **strp, hwloc_const_bitmap_t set) { (void) set; *strp = NULL; return 0; }
 #define hwloc_bitmap_asprintf vp_noprint
 #include "misc.h"
 #include "hwloc-calc.h"
 #undef hwloc_bitmap_asprintf
-
-#ifdef VP_CBMC
-int isdigit(int c) { return c >= '0' && c <= '9'; }
-#endif
 
 /* ---- range parser on arbitrary bytes -------------------------------------------------------------------------- */
 #ifndef L
@@ -43,7 +58,7 @@ VP_HARNESS(h_range)
 
 /* ---- location evaluator vs set algebra on the seed ---------------------------------------------------------------- */
 #ifndef TYPE
-#define TYPE 0        /* 0 pu, 1 core, 2 pack, 3 numa */
+#define TYPE 0        /* 0 pu, 1 pack, 2 numa */
 #endif
 #ifndef TPL
 #define TPL 0         /* 0 "T:d"  1 "T:d-d"  2 "T:d-"  3 "T:d:d"  4 "T:all|odd|even"  5 "pack:d.pu:d"  6 "pack:d.numa:all"  7 "all"/"root" */
@@ -51,27 +66,26 @@ VP_HARNESS(h_range)
 #ifndef OPP
 #define OPP 0         /* 1: the location carries an operator prefix (~ x ^), chosen symbolically */
 #endif
-static const char *const tname[4] = { "pu", "core", "pack", "numa" };
+static const char *const tname[3] = { "pu", "pack", "numa" };
 struct lvl { unsigned n; unsigned long c[4], ns[4]; unsigned os[4]; };
 static void level_table(struct hwloc_topology *t, int type, struct lvl *lv)
 {
-  static const hwloc_obj_type_t ty[4] = { HWLOC_OBJ_PU, HWLOC_OBJ_CORE, HWLOC_OBJ_PACKAGE, HWLOC_OBJ_NUMANODE };
+  static const hwloc_obj_type_t ty[3] = { HWLOC_OBJ_PU, HWLOC_OBJ_PACKAGE, HWLOC_OBJ_NUMANODE };
   hwloc_obj_t o = NULL; lv->n = 0;
   while ((o = hwloc_get_next_obj_by_type(t, ty[type], o)) != NULL && lv->n < 4) { lv->c[lv->n] = vp_w(o->cpuset); lv->ns[lv->n] = vp_w(o->nodeset); lv->os[lv->n] = o->os_index; lv->n++; }
 }
-VP_HARNESS(h_location)
+struct out { int r, expect_err; unsigned long oc, on, ec, en; };
+static struct lvl lv, lpu, lnuma, lpack;      /* brute-force tables of the levels, computed once per query */
+/* one evaluation with CONCRETE digits/keyword (d1, d2, kw are loop constants of the caller), symbolic accumulators,
+ * indexing mode and operator */
+static void one(struct hwloc_topology *t, unsigned d1, unsigned d2, unsigned kw, int logical, int mode, unsigned long ac, unsigned long an, struct out *o)
 {
-  struct hwloc_topology *t = vp_seed_build(2, 0);
-  struct lvl lv, lpu, lnuma, lpack; level_table(t, TYPE, &lv); level_table(t, 0, &lpu); level_table(t, 3, &lnuma); level_table(t, 2, &lpack);
-  struct hwloc_calc_location_context_s lc; lc.topology = t; lc.topodepth = hwloc_topology_get_depth(t); lc.only_hbm = -1; lc.logical = vp_in_bool(); lc.verbose = -1;
-  unsigned long ac = vp_in64(), an = vp_in64(); VP_ASSUME(ac < 64 && an < 8);
+  struct hwloc_calc_location_context_s lc; lc.topology = t; lc.topodepth = hwloc_topology_get_depth(t); lc.only_hbm = -1; lc.logical = logical; lc.verbose = -1;
   struct hwloc_calc_set_context_s sc; sc.nodeset_input = 0; sc.cpuset_input_format = HWLOC_UTILS_CPUSET_FORMAT_HWLOC; sc.output_cpuset = vp_bm(ac); sc.output_nodeset = vp_bm(an);
   char *s = malloc(32); VP_NONNULL(s); unsigned p = 0;
-  int mode = 0;      /* 0 add 1 clr 2 and 3 xor */
 #if OPP
-  mode = (int) vp_in_range(1, 3); s[p++] = mode == 1 ? '~' : mode == 2 ? 'x' : '^';
+  s[p++] = mode == 1 ? '~' : mode == 2 ? 'x' : '^';
 #endif
-  unsigned d1 = (unsigned) vp_in_range(0, 5), d2 = (unsigned) vp_in_range(0, 5), kw = (unsigned) vp_in_range(0, 2);
   unsigned long ec = 0, en = 0; int expect_err = 0;
 #define SEL(i) do { if ((i) < lv.n) { ec |= lv.c[i]; en |= lv.ns[i]; } } while (0)
 #define SELIDX(idx) do { if (lc.logical) SEL(idx); else for (unsigned k_ = 0; k_ < 4; k_++) if (k_ < lv.n && lv.os[k_] == (idx)) SEL(k_); } while (0)
@@ -106,12 +120,35 @@ VP_HARNESS(h_location)
         int inside = !(sub->c[k] && !(sub->c[k] & lpack.c[par])) && !(sub->ns[k] && !(sub->ns[k] & lpack.ns[par])) && (sub->c[k] || sub->ns[k]);
         if (inside) { int take = TPL == 6 || (lc.logical ? rank == d2 : sub->os[k] == d2); if (take) { ec |= sub->c[k]; en |= sub->ns[k]; } rank++; } } } }
 #else
-  { const char *k = kw ? "all" : "root"; for (unsigned i = 0; k[i]; i++) s[p++] = k[i]; ec = vp_seed.cpus; en = vp_seed.nodes; }
+  { const char *k = kw ? "all" : "root"; for (unsigned i = 0; k[i]; i++) s[p++] = k[i]; ec = 0x27; en = 0x3; }
 #endif
   s[p] = 0;
-  VP_SYMBOLIC_PHASE(1);
-  int r = hwloc_calc_process_location_as_set(&lc, &sc, s);
-  unsigned long oc = vp_w(sc.output_cpuset), on = vp_w(sc.output_nodeset);
+  o->r = hwloc_calc_process_location_as_set(&lc, &sc, s);
+  o->oc = vp_w(sc.output_cpuset); o->on = vp_w(sc.output_nodeset); o->ec = ec; o->en = en; o->expect_err = expect_err;
+}
+/* which of d2 / kw a template reads (the others are pinned to 0 so that each case is executed once) */
+#define USES_D2 (TPL == 1 || TPL == 3 || TPL == 5)
+#define USES_KW (TPL == 4 || TPL == 7)
+#define USES_D1 (TPL != 4 && TPL != 7)
+VP_HARNESS(h_location)
+{
+  struct hwloc_topology *t = vp_mini_build();
+  level_table(t, TYPE, &lv); level_table(t, 0, &lpu); level_table(t, 2, &lnuma); level_table(t, 1, &lpack);
+  int logical = vp_in_bool();
+  unsigned long ac = vp_in64(), an = vp_in64(); VP_ASSUME(ac < 64 && an < 8);
+  int mode = 0;      /* 0 add 1 clr 2 and 3 xor */
+#if OPP
+  mode = (int) vp_in_range(1, 3);
+#endif
+  unsigned d1 = (unsigned) vp_in_range(0, 5), d2 = (unsigned) vp_in_range(0, 5), kw = (unsigned) vp_in_range(0, 2);
+  VP_ASSUME((USES_D1 || d1 == 0) && (USES_D2 || d2 == 0) && (USES_KW || kw == 0));
+  /* the digits and the keyword select one of the concretely built strings: a symbolic character inside the text
+   * would let symex follow every reading of it (a '.', a NUL, a letter) through the whole evaluator */
+  struct out o; o.r = 99; o.expect_err = 0; o.oc = o.on = o.ec = o.en = 0;
+  for (unsigned v1 = 0; v1 < (USES_D1 ? 6 : 1); v1++) for (unsigned v2 = 0; v2 < (USES_D2 ? 6 : 1); v2++) for (unsigned vk = 0; vk < (USES_KW ? 3 : 1); vk++) for (int vm = OPP ? 1 : 0; vm <= (OPP ? 3 : 0); vm++)
+    if (d1 == v1 && d2 == v2 && kw == vk && mode == vm) one(t, v1, v2, vk, logical, vm, ac, an, &o);
+  int r = o.r, expect_err = o.expect_err; unsigned long oc = o.oc, on = o.on, ec = o.ec, en = o.en;
+  VP_CHECK(r != 99, "one case executed");
   if (expect_err) { VP_CHECK(r == -1, "a reversed range is a malformed location: rejected"); VP_CHECK(oc == ac && on == an, "a rejected location leaves the accumulated sets unchanged"); }
   else {
     VP_CHECK(r == 0, "a well-formed location is accepted");
@@ -122,6 +159,6 @@ VP_HARNESS(h_location)
   }
   VP_WITNESS_IF(r == 0 && ec != 0 && oc != ac, "the location changed the accumulated cpuset");
 #if TPL == 6
-  VP_WITNESS_IF(r == 0 && d1 == 0 && en == 0x1, "only the NUMA node inside package 0, not the CPU-less one attached to the machine");
+  VP_WITNESS_IF(r == 0 && d1 == 0 && en == 0x1, "only the NUMA node inside package 0");
 #endif
 }
